@@ -635,7 +635,14 @@ impl SymExpr {
             Self::Broadcast(lhs, rhs) => {
                 let x = lhs.eval(symbols)?;
                 let y = rhs.eval(symbols)?;
-                Ok(x.max(y))
+                // A size of 1 broadcasts to the other size, including zero.
+                Ok(if x == 1 {
+                    y
+                } else if y == 1 {
+                    x
+                } else {
+                    x.max(y)
+                })
             }
         }
     }
